@@ -690,6 +690,53 @@ theorem sys_retries_exact_conn (P : SProto Q) (hP : Laws P.toProto) (cls : Bytes
     (∀ s1 es1, LossSys.attemptStep P cls lim req tmo retry i s es last = .next s1 es1 (.missing false) → LossSys.Same s s1) :=
   (LossSys.attemptStep_conn P hP cls lim req tmo retry i s es last).2
 
+/-- what `sys_every_call_ends` says about one observation of an execution -/
+def GoodObs (P : SProto Q) (c : LossSys.CCfg) : LossSys.Obs → Prop
+  | .req o (some t) t0 t1 _ => o ≠ .blocked ∧ t1 ≤ t0 + LossSys.callBudget P c.lim t true c.maxRetry 0
+  | .rd r (some t) t0 t1 => r ≠ .blocked ∧ t1 ≤ t0 + t
+  | _ => True
+
+/-- whole executions: for every event list (and every start state) every `request()` issued with a caller timeout `t`
+    returns or raises within `callBudget`, and every transport read with a timeout within that timeout -/
+theorem sys_run_calls_end (P : SProto Q) (cl : Bytes → Client.Ev) (c : LossSys.CCfg) (fuel : Nat)
+    (s : Sys Q) (es : List SEv) (acc : List LossSys.Obs) (hacc : ∀ o ∈ acc, GoodObs P c o) :
+    ∀ o ∈ (LossSys.run P cl c fuel s es acc).2, GoodObs P c o := by
+  induction fuel generalizing s es acc with
+  | zero => simpa [LossSys.run] using hacc
+  | succ n ih =>
+    cases es with
+    | nil => simpa [LossSys.run] using hacc
+    | cons e es =>
+      unfold LossSys.run
+      have hext : ∀ (x : LossSys.Obs), GoodObs P c x → ∀ o ∈ acc ++ [x], GoodObs P c o := by
+        intro x hx o ho
+        rcases List.mem_append.mp ho with h | h
+        · exact hacc o h
+        · simp only [List.mem_singleton] at h; subst h; exact hx
+      cases e with
+      | peer pe => exact ih _ _ _ hacc
+      | close => exact ih _ _ _ (hext _ trivial)
+      | reconnect => exact ih _ _ _ (hext _ trivial)
+      | read tmo =>
+        have hg : GoodObs P c (.rd (LossSys.opRead P s es tmo).1 tmo s.now (LossSys.opRead P s es tmo).2.1.now) := by
+          cases tmo with
+          | none => trivial
+          | some t => exact LossSys.opRead_time P s es t
+        simp only
+        split
+        · exact hext _ hg
+        · exact ih _ _ _ (hext _ hg)
+      | request d tmo =>
+        have hg : GoodObs P c (.req (LossSys.request P cl c d tmo s es).1 tmo s.now (LossSys.request P cl c d tmo s es).2.1.now
+            (LossSys.request P cl c d tmo s es).2.1.nconn) := by
+          cases tmo with
+          | none => trivial
+          | some t => exact sys_every_call_ends P cl c d t s es
+        simp only
+        split
+        · exact hext _ hg
+        · exact ih _ _ _ (hext _ hg)
+
 /-- the three transports satisfy the hypothesis of the no-fabrication theorems -/
 theorem sys_laws : Laws LossSys.linesS.toProto ∧ (∀ cfg, Laws (LossSys.doipS cfg).toProto) ∧ (∀ cfg, Laws (LossSys.hsfzS cfg).toProto) :=
   ⟨linesLaws, doipLaws, hsfzLaws⟩
@@ -721,7 +768,13 @@ example : (LossSys.request LossSys.linesS exCls (exC 0) exReq (some 500) exSys
 -- that timed out arrives late and is returned to the follow-up request
 example : (LossSys.run LossSys.linesS exCls (exC 0) 10 exSys
       [.request exReq (some 500), .peer (.advance 600), .peer (.deliver [0x36, 0x32, 0x0A]), .request exReq (some 500)] []).2.map
-      (fun | .req o _ _ _ => some o | _ => none) = [some (.missing false), some (.reply [0x62])] := by decide
+      (fun | .req o _ _ _ _ => some o | _ => none) = [some (.missing false), some (.reply [0x62])] := by decide
+
+-- `GoodObs` is not vacuous: the observations of the run with the late reply above
+example : ∀ o ∈ (LossSys.run LossSys.linesS exCls (exC 0) 10 exSys
+      [.request exReq (some 500), .peer (.advance 600), .peer (.deliver [0x36, 0x32, 0x0A]), .request exReq (some 500)] []).2,
+    GoodObs LossSys.linesS (exC 0) o :=
+  sys_run_calls_end LossSys.linesS exCls (exC 0) 10 exSys _ [] (by simp)
 
 end Sys
 
